@@ -552,6 +552,9 @@ class Index:
         if r[0] == 'def':
             return FuncRef(f'{r[1]}:{self.qualname(r[2])}')
         if r[0] == 'external':
+            if r[1] == 'math' and r[2] in ('pi', 'e', 'inf', 'tau'):
+                import math
+                return getattr(math, r[2])
             return FuncRef(f'{r[1]}:{r[2]}')
         if r[0] == 'module':
             raise Unfoldable('module object')
